@@ -139,6 +139,8 @@ def in_situ(chk, seed, rounds):
             log = os.path.join(d, "shim.log")
             # every read of a tree file is delayed so that as many hashing tasks as the pools allow hold a file open
             env = gm.env_for(o, os.path.join(d, "home"), shimlog.shim_env(log, [troot], shimlog.plan(shimlog.rule("read", b"", 0, "delay:15000"))))
+            evf = os.path.join(d, "events.jsonl")
+            env["FCLONES_VERIF_EVENTS"] = evf  # hook H5: permits of the open-files semaphore when grouping starts and ends
             argv = [common.fclones_bin()] + [a.decode() for a in gm.group_argv(o, ["r0"], "json")]
 
             def lower():
@@ -170,6 +172,19 @@ def in_situ(chk, seed, rounds):
             if p.returncode != 0 or "Too many open files" in errt or "os error 24" in errt:
                 chk.violation("C19:in-situ:too-many-open-files", "group ran out of file descriptors (limit %d, peak %d)" % (limit, peak), w)
                 continue
+            from .C15 import open_file_permits
+            st_, en_ = open_file_permits(evf)
+            w["semaphore_permits_at_start_and_end"] = [st_, en_]
+            if st_ is not None and st_ != permits:
+                chk.violation("C19:in-situ:semaphore-size", "the open-files semaphore starts with %d permits under RLIMIT_NOFILE=%d, "
+                              "documented: max(limit - 5, 64) = %d" % (st_, limit, permits), w)
+                continue
+            if st_ is not None and en_ is not None and en_ != st_:
+                chk.violation("C19:in-situ:permits-not-conserved", "the open-files semaphore holds %d permits when grouping ends, "
+                              "%d when it starts" % (en_, st_), w)
+                continue
+            if st_ is not None and en_ is not None:
+                chk.count("in_situ_runs_with_permits_conserved")
             if peak > permits:
                 chk.violation("C19:in-situ:open-file-budget-exceeded", "%d files of the tree were open at once, budget %d" % (peak, permits), w)
                 continue
